@@ -844,4 +844,162 @@ theorem tRoundtrip_own {s loc locB} (h : OwnL fl s loc locB) (ht : s.v.h.thin = 
         (fun hf => by cases hp0 hf)
 
 
+theorem LocalVec.setCapacity {v : Vec} {L : List Nat} (h : LocalVec v L) (n : Nat)
+    (hn : L.length ≤ n) : LocalVec (v.setCapacity n) L := by
+  unfold Vec.setCapacity
+  split
+  · exact h
+  · obtain ⟨e1, rest, e2⟩ := h
+    have hge := roundCap_ge v.h.esz n
+    refine ⟨e1, (rest ++ uninits (roundCap v.h.esz n - v.cap)).take (roundCap v.h.esz n - L.length), ?_⟩
+    simp only [e2, List.append_assoc]
+    rw [List.take_append]
+    simp only [List.length_map]
+    rw [List.take_of_length_le (by simp; omega)]
+
+theorem LocalVec.reserve {v : Vec} {L : List Nat} (h : LocalVec v L) (add : Nat) :
+    LocalVec (v.reserve add) L := by
+  unfold Vec.reserve
+  split
+  · exact h.setCapacity _ (by rw [h.1]; omega)
+  · exact h
+
+
+/-- `set_capacity(n)` on any vector whose capacity is a fixed point of the rounding: length and
+header unchanged, the new capacity is a fixed point again and at least `n` -/
+theorem Vec.setCapacity_room {v : Vec} (n : Nat) (hpos : 0 < v.h.esz)
+    (hfix : roundCap v.h.esz v.cap = v.cap) :
+    (v.setCapacity n).len = v.len ∧ (v.setCapacity n).h = v.h ∧ n ≤ (v.setCapacity n).cap ∧
+      roundCap v.h.esz (v.setCapacity n).cap = (v.setCapacity n).cap := by
+  unfold Vec.setCapacity
+  split
+  · rename_i hsame
+    refine ⟨rfl, rfl, ?_, hfix⟩
+    have : roundCap v.h.esz v.cap = roundCap v.h.esz n := by
+      rw [roundCap_eq_of_pos hpos, roundCap_eq_of_pos hpos, hsame]
+    rw [← hfix, this]; exact roundCap_ge _ _
+  · have hge := roundCap_ge v.h.esz n
+    have hlen : ((v.slots ++ uninits (roundCap v.h.esz n - v.slots.length)).take
+        (roundCap v.h.esz n)).length = roundCap v.h.esz n := by
+      simp only [List.length_take, List.length_append, uninits, List.length_replicate]
+      omega
+    refine ⟨rfl, rfl, ?_, ?_⟩
+    · simp only [Vec.cap]; rw [hlen]; exact hge
+    · simp only [Vec.cap]; rw [hlen]; exact roundCap_fix hpos n
+
+theorem Vec.reserve_room {v : Vec} (add : Nat) (hpos : 0 < v.h.esz)
+    (hfix : roundCap v.h.esz v.cap = v.cap) (hle : v.len ≤ v.cap) :
+    (v.reserve add).len = v.len ∧ (v.reserve add).h = v.h ∧ v.len + add ≤ (v.reserve add).cap ∧
+      roundCap v.h.esz (v.reserve add).cap = (v.reserve add).cap := by
+  unfold Vec.reserve
+  split
+  · obtain ⟨h1, h2, h3, h4⟩ := Vec.setCapacity_room (max (v.len + add) (v.cap * 2)) hpos hfix
+    exact ⟨h1, h2, by omega, h4⟩
+  · exact ⟨rfl, rfl, by omega, hfix⟩
+
+/-- `extend` with `into_iter`, `size_hint` and the iterator's drop as fault points -/
+theorem tExtend_own {s loc locB} (hint k : Nat) (h : OwnL fl s loc locB) (ht : s.v.h.thin = true)
+    (hal : s.v.h.alive = true) : OwnL fl (tExtend hint k s).2 loc locB := by
+  unfold tExtend
+  have h1 := h.tick
+  have hv1 : (s.onMem Mem.tick).2.v = s.v := rfl
+  generalize s.onMem Mem.tick = r at h1 hv1
+  obtain ⟨p0, s1⟩ := r
+  simp only at h1 hv1 ⊢
+  split
+  · exact h1
+  · have h2 := h1.tick
+    have hv2 : (s1.onMem Mem.tick).2.v = s1.v := rfl
+    generalize s1.onMem Mem.tick = r at h2 hv2
+    obtain ⟨p1, s2⟩ := r
+    simp only at h2 hv2 ⊢
+    split
+    · exact h2.tick
+    · exact (tExtIter_own hint k h2 (by rw [hv2, hv1]; exact ht)
+        (by rw [hv2, hv1]; exact hal)).tick
+
+/-- the loop of `from_iter` on a local ThinVec holding `acc` -/
+theorem tFromIterLoop_own {loc locB} (mn : Nat) : ∀ (k i : Nat) (o : Vec) (acc : List Nat)
+    (s : St), OwnL fl s (acc ++ loc) locB → LocalVec o acc → 0 < o.h.esz →
+    roundCap o.h.esz o.cap = o.cap → (i < mn → acc.length + (mn - i) ≤ o.cap) →
+    ∃ acc', LocalVec (tFromIterLoop mn i k o s).2.1 acc' ∧
+      (tFromIterLoop mn i k o s).2.1.h = o.h ∧
+      OwnL fl (tFromIterLoop mn i k o s).2.2 (acc' ++ loc) locB
+  | 0, i, o, acc, s, h, ho, _, _, _ => by
+    simp only [tFromIterLoop]
+    exact ⟨acc, ho, trivial, h.tick⟩
+  | k + 1, i, o, acc, s, h, ho, hpos, hfix, hroom => by
+    unfold tFromIterLoop
+    have h1 := h.genVal
+    rcases hr : s.onMem Mem.genVal with ⟨_ | a, s'⟩ <;> rw [hr] at h1 <;> simp only at h1 ⊢
+    · exact ⟨acc, ho, trivial, h1.1⟩
+    · have hle : acc.length ≤ o.cap := by
+        obtain ⟨_, rest, e2⟩ := ho
+        simp [Vec.cap, e2]
+      -- the vector after the optional `reserve(1)`
+      have key : ∃ o1, (if i ≥ mn then o.reserve 1 else o) = o1 ∧ LocalVec o1 acc ∧ o1.h = o.h ∧
+          acc.length < o1.cap ∧ roundCap o.h.esz o1.cap = o1.cap ∧
+          (i + 1 < mn → acc.length + 1 + (mn - (i + 1)) ≤ o1.cap) := by
+        by_cases hge : i ≥ mn
+        · obtain ⟨r1, r2, r3, r4⟩ := Vec.reserve_room (v := o) 1 hpos hfix (by rw [ho.1]; exact hle)
+          exact ⟨_, by rw [if_pos hge], ho.reserve 1, r2, by rw [ho.1] at r3; omega, r4,
+            by intro; omega⟩
+        · have := hroom (by omega)
+          exact ⟨_, by rw [if_neg hge], ho, rfl, by omega, hfix, by intro; omega⟩
+      obtain ⟨o1, e1, e2, e3, e4, e5, e6⟩ := key
+      rw [e1]
+      have hc : o1.len < o1.cap := by rw [e2.1]; exact e4
+      have hchk : s'.chk (decide (o1.len < o1.cap)) = s' := by simp [St.chk, hc]
+      rw [hchk]
+      have hst : (o1.store a).h = o1.h := rfl
+      have hcap : (o1.store a).cap = o1.cap := by simp [Vec.store, Vec.setLen, Vec.write, Vec.cap]
+      obtain ⟨acc', f1, f2, f3⟩ := tFromIterLoop_own (loc := loc) (locB := locB) mn k (i + 1)
+        (o1.store a) (acc ++ [a]) s'
+        (h1.1.perm (by perm_tac)) (e2.store hc) (by rw [hst, e3]; exact hpos)
+        (by rw [hst, e3, hcap]; exact e5) (by intro hh; rw [hcap]; simp; exact e6 hh)
+      exact ⟨acc', f1, by rw [f2, hst, e3], f3⟩
+
+theorem tFromIter_own {s loc locB} (hint k : Nat) (h : OwnL fl s loc locB)
+    (ht : s.v.h.thin = true) (hal : s.v.h.alive = true) :
+    OwnL fl (tFromIter hint k s).2 loc locB := by
+  unfold tFromIter
+  have hpos : 0 < s.v.h.esz := by
+    obtain ⟨_, _, _, _, hk, _⟩ := h
+    exact (hk.2 ht hal).1
+  have h1 := h.tick
+  have hv1 : (s.onMem Mem.tick).2.v = s.v := rfl
+  generalize s.onMem Mem.tick = r at h1 hv1
+  obtain ⟨p0, s1⟩ := r
+  simp only at h1 hv1 ⊢
+  split
+  · exact h1
+  · have h2 := h1.tick
+    have hv2 : (s1.onMem Mem.tick).2.v = s1.v := rfl
+    generalize s1.onMem Mem.tick = r at h2 hv2
+    obtain ⟨p1, s2⟩ := r
+    simp only at h2 hv2 ⊢
+    split
+    · exact h2.tick
+    · have hvs : s2.v = s.v := by rw [hv2, hv1]
+      have h3 := tWithCap_own hint s2.v.h.esz s2.v.h.tracked h2
+      rcases hw : tWithCap hint s2.v.h.esz s2.v.h.tracked s2 with ⟨_ | o, s3⟩ <;> rw [hw] at h3 <;>
+        simp only at h3 ⊢
+      · exact h3.1.tick
+      · obtain ⟨hv3, hf, ho⟩ := h3
+        have hlv0 : LocalVec o [] := ⟨hf.len0, o.slots, by simp⟩
+        have hesz : o.h.esz = s.v.h.esz := by rw [hf.esz_eq, hvs]
+        obtain ⟨acc', f1, f2, f3⟩ := tFromIterLoop_own (loc := prefL o.h ++ loc)
+          (locB := o.h.buf :: locB) hint k 0 o [] s3 ho hlv0 (by rw [hesz]; exact hpos)
+          (by rw [hf.esz_eq]; exact hf.capfix (by rw [hvs]; exact hpos))
+          (by intro; simpa using hf.cap)
+        generalize tFromIterLoop hint 0 k o s3 = r at f1 f2 f3
+        obtain ⟨p, o2, s4⟩ := r
+        simp only at f1 f2 f3 ⊢
+        have h4 := f3.tick
+        generalize s4.onMem Mem.tick = r at h4
+        obtain ⟨q, s5⟩ := r
+        simp only at h4 ⊢
+        exact tDropVec_own f1 (by rw [f2]; exact hf.thin) (by rw [f2]; exact hf.alive)
+          (by rw [f2]; exact hf.pinit) (by rw [f2]; exact h4)
+
 end HipVerif.Slots
